@@ -114,6 +114,10 @@ func gen(r *vk.Run, n int) error {
 	if err := runScenario(r, raceScenario(), sh, "known-race"); err != nil {
 		return err
 	}
+	// always: one history with a committer more than MaxConcurrency ids ahead, every cut point
+	if err := farFamily(r, n, sh, 2+int(r.Seed%3), 1, []int{64, 96, 128}[r.Seed%3], true); err != nil {
+		return err
+	}
 	fam := 0
 	for r.N < n {
 		fam++
@@ -167,6 +171,17 @@ func gen(r *vk.Run, n int) error {
 			if err := runScenario(r, scn, sh, "mid"); err != nil {
 				return err
 			}
+		case pick == 16 || pick == 17:
+			conc := 1 + rng.Intn(4)
+			if emb {
+				maxio = 1 + rng.Intn(3)
+			}
+			if rng.Intn(2) == 0 {
+				maxio = 1
+			}
+			if err := farFamily(r, n, sh, conc, maxio, fsz, false); err != nil {
+				return err
+			}
 		case pick == 15:
 			// value cache on: direct checks only (no case is recorded)
 			T := 4 + rng.Intn(4)
@@ -209,6 +224,66 @@ func gen(r *vk.Run, n int) error {
 	}
 	if os.Getenv("VERIF_TIER") == "thorough" {
 		raceStress(r, 20)
+	}
+	return nil
+}
+
+// farFamily: small MaxConcurrency (1..4) and committers running MORE than MaxConcurrency ids
+// ahead (ReplicateTx appends its values, then waits for its predecessor: it can be overtaken by
+// any number of sequential commits), every cut point afterwards.  A stalled committer holds one
+// of the MaxConcurrency slots, so at most MaxConcurrency-1 run ahead.
+//
+// plain = true is the engineered instance run at the start of every check: the LAST transaction
+// alone runs ahead, every transaction has one non-empty value of about half a file (so each sits
+// in a chunk of its own region and no empty first entry pins a tombstone at 0): for every cut n
+// with n + MaxConcurrency < T the value of tx T lies in a chunk below the one of tx n.
+func farFamily(r *vk.Run, n int, sh *shared, conc, maxio, fsz int, plain bool) error {
+	rng := r.Rng
+	T := conc + 4 + rng.Intn(5)
+	txs := genTxs(rng, T, fsz, false)
+	nAhead := 0
+	if conc > 1 {
+		nAhead = 1 + rng.Intn(conc-1)
+	}
+	ahead := map[int]bool{}
+	if plain {
+		T = conc + 6
+		txs = make([][]KV, T)
+		for t := range txs {
+			txs[t] = []KV{{K: keyOf(t+1, 0), S: rng.Intn(256), N: fsz/2 + rng.Intn(fsz/2)}}
+		}
+		ahead[T] = true
+		nAhead = 1
+	}
+	for len(ahead) < nAhead {
+		id := conc + 2 + rng.Intn(T-conc-1) // conc+2 .. T: more than conc ids beyond tx 1
+		ahead[id] = true
+	}
+	var launch []Act
+	for id := T; id >= 1; id-- { // the farthest first
+		if ahead[id] {
+			// its values must be there to be lost: first entry non-empty
+			if txs[id-1][0].N == 0 {
+				txs[id-1][0].N = 1 + rng.Intn(fsz)
+			}
+			launch = append(launch, Act{Op: "launch", ID: uint64(id)})
+		}
+	}
+	for id := 1; id <= T; id++ {
+		if !ahead[id] {
+			launch = append(launch, Act{Op: "launch", ID: uint64(id)})
+		}
+	}
+	xo := []int64{rng.Int63(), rng.Int63()}
+	for cut := 0; cut <= T+1 && r.N < n; cut++ {
+		if conc == 1 && cut > 2 {
+			break // nobody can run ahead with a single slot: the configuration itself is the point
+		}
+		plan := append(append([]Act{}, launch...), tail([]uint64{uint64(cut)})...)
+		scn := &Scenario{Mode: "replica", MaxIO: maxio, Fsz: fsz, MaxConc: conc, Txs: txs, Plan: plan, XOrder: xo}
+		if err := runScenario(r, scn, sh, "far"); err != nil {
+			return err
+		}
 	}
 	return nil
 }
